@@ -35,7 +35,7 @@ add('C07', 'l1', 'Generated key-set variations (absent / null / surplus keys and
 add('C08', 'l1', 'Exhaustive part: the enumerated 4-locale domain (125 inherits maps x 27 presence patterns, 7 reference shapes) with locale-specific member names. Random part: generated keys whose per-locale values differ in kind and member sets (and deliberate count conflicts); the InterpolOrLit computed by the parser is compared with the union over locales of the AST members after substitution.',
     L1_NOTE + 'stage 2 = compile probes on generated crates: per key the valid call with exactly the union set (string and view back-ends; formatted variables as typed values) must compile with no error of any kind (compiled once without the negative probes so that borrow-check errors are not masked), and each omitted member / unknown member / unknown key / wrongly typed count must not compile.')
 add('C09', 'l1', 'Grammar-aware adversarial mutations of generated projects (delimiters, multi-byte characters, hostile ranges / bounds / counts / references / key names, mutated manifests) run in-process under catch_unwind through parse_locales, the build-script API and the code generator; deep / long values run in child processes with an 8 MiB stack; regression inputs of all earlier panics. Oracle: Ok or a non-empty error, never a panic, abort or signal.',
-    'A child still running after 120 s is inconclusive (exit 2). Stack overflows on 65-130 kB single values are recorded as known finding D9. Stage 2 (generated crates): packages that expand load_locales!() three times in one crate must compile and run (state surviving an expansion inside the compiler process). Coverage-guided byte-level fuzzing (libFuzzer) is the last stage of the thorough tier.',
+    'A child still running after 120 s is inconclusive (exit 2). Stack overflows on 65-130 kB single values are recorded as known finding D9. Stage 2 (generated crates): packages that expand load_locales!() three times in one crate must compile and run (state surviving an expansion inside the compiler process). Stages 3 and 4 (YAML and JSON5 harness builds): scalar spellings JSON does not have (non-finite floats, hex / octal / underscored integers, signs, tags, anchors, single quotes) in 8 positions of a project. Coverage-guided byte-level fuzzing (libFuzzer) is the last stage of the thorough tier.',
     technique='property-based testing with grammar-aware mutation (+ libFuzzer in the thorough tier), crash oracle')
 add('C10', 'l1', 'Metamorphic: repeated loads + in-process code generation (same process, fresh processes), sampled permutations of object-key order, and the same AST printed as JSON / YAML / JSON5 loaded by three feature builds must agree (byte-identical dumps within a format; key tree, diagnostics and evaluated text across formats). Stage 2 on a harness build without the plural / formatter features: the macro flavour and the build-script flavour of the loader called alternately on one thread must each return what the project alone determines.',
     'Trusted: the three printers in ser.rs. Integers above i64::MAX are excluded (json5 has no u64).',
@@ -65,13 +65,14 @@ add('C18', 'l0b', 'Exhaustive: every formatter name x option combination x omitt
     technique='exhaustive enumeration + differential property-based testing against fresh ICU4X formatters; stateful histories')
 add('C19', 'l1', 'Generated Cargo.toml manifests (preamble / trailing sections, field orders, spellings, duplicates, bad inherits, missing fields) and directory layouts (decoys, missing files); ConfigFile fields, files read and errors from parse_locales_raw are compared with a three-valued model (must-accept / must-reject / unspecified). Extension part in the JSON, YAML and JSON5 harness builds: per (namespace, locale) a valid file under a non-empty subset of the format extensions plus decoy endings; exactly one candidate per unit is read, the content comes from the file reported as read, and a second layout differing in one unit leaves the choice for every other unit unchanged (metamorphic).',
     'Configuration part: JSON build. Which of x.yaml / x.yml wins when both exist is not asserted. Unspecified (not asserted): default locale left out of `locales` but used as an inherits target; undocumented sub-table spellings are not generated.')
-add('C20', 'l1', 'Generated projects where plurals and each formatter family occur rarely and in varied places (other locales, nested subkeys, later namespaces, via `$t`, unreachable surplus keys); TranslationsInfos::get_icu_keys() as a set is compared with the union of Options::into_data_keys over the families the AST needs; locales and namespaces are compared with the configuration.',
+add('C20', 'l1', 'Generated projects where plurals and each formatter family occur rarely and in varied places (other locales, nested subkeys, later namespaces, via `$t`, unreachable surplus keys); TranslationsInfos::get_icu_keys() as a set is compared with the union of Options::into_data_keys over the families the AST needs and with a hand table of the ICU4X 1.5 data markers of each constructor; locales and namespaces are compared with the configuration. Stage 2 (engine lb): the build helper linked on its own (no other crate enables parser features) on generated projects and on inputs whose names the macro does not accept as identifiers.',
     L1_NOTE + 'option values of formatters belong to C18.')
 
 ENGINES = [
     dict(name='l1', path='engine/l1 (+ l1y, l1j5: same sources built for yaml / json5)', kind_free_text='in-process parser / code-generator / build-helper harness driven by proptest choice tapes; sources of the proc-macro crate compiled in via #[path]'),
     dict(name='l1nf', path='engine/l1nf', kind_free_text='the l1 sources built without the plural / formatter features (second stage of C10: call-history independence of the two loader flavours)'),
     dict(name='l2', path='engine/l2', kind_free_text='generated-crate tier: projects generated from choice tapes are emitted as cargo packages calling the real macros, compiled in one workspace, run, and their printed observations compared with the reference semantics (second stage of C01 C03 C04 C05 C06 C07 C08 C11 C18; sole engine of C02 C13); engine/vref is the independent ICU4X reference crate the C18 packages link'),
+    dict(name='lb', path='engine/lb', kind_free_text='the build helper linked on its own (second stage of C20): get_icu_keys() against a hand table of ICU4X data-marker names'),
     dict(name='l0b', path='engine/l0b', kind_free_text='native run-time harness: router path helpers (hooks), I18nRoute, formatter parsing and run-time formatting'),
     dict(name='l0bp', path='engine/l0bp', kind_free_text='the C18 run-time harness built against leptos_i18n without icu_compiled_data (custom ICU data provider registered at start): second stage of C18'),
     dict(name='l0dyn', path='engine/l0dyn', kind_free_text='native run-time harness built with dynamic_load+ssr: server-embedded translations'),
